@@ -1,5 +1,5 @@
 import QuriVerif.Props.C01Pass
-import QuriVerif.Proof.PassSound3
+import QuriVerif.Proof.PassSound4
 import QuriVerif.Model.StdEnv
 /-
   C01, pipeline level: passes of the executable model `Model/C01.lean` other than `decompPass`, and
@@ -16,8 +16,10 @@ import QuriVerif.Model.StdEnv
                idElim, idInsert m (m ≤ n), um1, um2 (identities in the model),
                rotConv (nested pipeline of decomp passes), cliffApprox (never run by `runPass`:
                it is an approximation, deliberately not operator preserving, and returns an error);
-    pending  : fuseCHC, pauliDec, pauliRotDec, cnotRzRzz – hypotheses of `runSeq_sound_partial3`;
-               gateSetConv is covered modulo these.
+               fuseCHC, cnotRzRzz (third round, two-list templates);
+    pending  : pauliDec, pauliRotDec (arbitrary number of targets; only small cases are kernel-checked,
+               the induction over the CNOT ladder is not done) – hypotheses of `runSeq_sound_partial4`;
+               gateSetConv is covered modulo these two.
 -/
 namespace QV.Props.C01Pipeline
 open QV QV.C01 QV.MatSound QV.Props.Reflect QV.Props.C01Lift QV.Props.C01Pass
@@ -204,5 +206,88 @@ private theorem pipe2_kinds : pipe2Out.map (·.kind) =
 
 example : CInv 2 pipe2Out ∧ OpEqvC 2 circ2 pipe2Out :=
   runSeq_sound_proved3 2 stdFuel pipe2 circ2 pipe2Out (by decide +kernel) circ2_inv pipe2_runs
+
+/-! ## third round: `fuseCHC`, `cnotRzRzz` (two-list templates) -/
+
+/-- RZZ(0,1,θ) ∝ CNOT(0,1)·RZ(1,θ)·CNOT(0,1) for all θ, with non-vanishing certificates -/
+theorem rzz_cert : tpl2OK rzzT2 = true := by decide +kernel
+
+/-- the 7-gate CHC replacement ∝ CNOT(0,1)·H(0)·CNOT(0,1), with certificates and arities -/
+theorem chc_cert : chcOK stdEnv.chc = true := by decide +kernel
+
+theorem stdEnvOK4 : EnvOK4 zetaC (rhoC φ64) stdEnv := ⟨stdEnvOK, chc_cert, rzz_cert⟩
+
+/-- `fuseCHCPass` -/
+theorem fuseCHCPass_sound (n : ℕ) (c out : List NGate) (hc : CInv n c)
+    (h : fuseCHCPass stdEnv.chc c = some out) : CInv n out ∧ OpEqvC n c out :=
+  fuseCHCPass_ok zetaC_pow_eight (rhoC_ne_zero φ64) rho64_pow two_ne_zero _ chc_cert n c out hc h
+
+/-- `cnotRzRzzPass` -/
+theorem cnotRzRzzPass_sound (n : ℕ) (c : List NGate) (hc : CInv n c) :
+    CInv n (cnotRzRzzPass c) ∧ OpEqvC n c (cnotRzRzzPass c) :=
+  cnotRzRzzPass_ok zetaC_pow_eight (rhoC_ne_zero φ64) two_ne_zero rzz_cert n c hc
+
+/-- **Pipelines, unconditional** (`provedPass4`): every primitive pass except `pauliDec` and
+    `pauliRotDec`, and `rotConv` -/
+theorem runSeq_sound_proved4 (n fuel : ℕ) (ps : List Pass) (c c' : List NGate)
+    (hf : ∀ p ∈ ps, p.fits n = true ∧ p.ladderGood stdEnv = true ∧ provedPass4 p = true)
+    (hc : CInv n c) (h : runSeq stdEnv fuel ps c = .ok c') : CInv n c' ∧ OpEqvC n c c' :=
+  MatSound.runSeq_sound_proved4 zetaC_pow_eight (rhoC_ne_zero φ64) rho64_pow two_ne_zero stdEnv
+    stdEnvOK4 n fuel ps c c' hf hc h
+
+/-- **Pipelines, general** – including `GateSetConversionTranspiler` – assuming soundness of
+    `pauliDec` and `pauliRotDec` only -/
+theorem runSeq_sound_partial4 (n : ℕ)
+    (hpend : ∀ p, pendingPass4 p = true → PrimOK zetaC (rhoC φ64) stdEnv n p)
+    (fuel : ℕ) (ps : List Pass) (c c' : List NGate)
+    (hf : ∀ p ∈ ps, p.fits n = true ∧ p.ladderGood stdEnv = true)
+    (hc : CInv n c) (h : runSeq stdEnv fuel ps c = .ok c') : CInv n c' ∧ OpEqvC n c c' :=
+  MatSound.runSeq_sound_partial4 zetaC_pow_eight (rhoC_ne_zero φ64) rho64_pow two_ne_zero stdEnv
+    stdEnvOK4 n hpend fuel ps c c' hf hc h
+
+/-! ### non-vacuity, third round: circuits where the two window passes fire -/
+
+private def circ3 : List NGate :=
+  [{ kind := .X, targets := [2] },
+   { kind := .CNOT, controls := [0], targets := [1] }, { kind := .H, targets := [0] },
+   { kind := .CNOT, controls := [0], targets := [1] },
+   { kind := .CNOT, controls := [2], targets := [1] }, { kind := .RZ, targets := [1], params := [9] },
+   { kind := .CNOT, controls := [2], targets := [1] }, { kind := .RZ, targets := [0], params := [3] }]
+
+private theorem circ3_inv : CInv 3 circ3 := by decide +kernel
+
+/-- the CHC window on wires (0,1) is replaced by the 7-gate list -/
+example : fuseCHCPass stdEnv.chc circ3 = some
+    [{ kind := .X, targets := [2] },
+     { kind := .S, targets := [0] }, { kind := .H, targets := [1] },
+     { kind := .CNOT, controls := [1], targets := [0] }, { kind := .Sdag, targets := [0] },
+     { kind := .S, targets := [1] }, { kind := .H, targets := [0] }, { kind := .H, targets := [1] },
+     { kind := .CNOT, controls := [2], targets := [1] }, { kind := .RZ, targets := [1], params := [9] },
+     { kind := .CNOT, controls := [2], targets := [1] }, { kind := .RZ, targets := [0], params := [3] }] := by
+  decide +kernel
+
+/-- the CNOT·RZ·CNOT window on wires (2,1) becomes RZZ(2,1; 9) -/
+example : cnotRzRzzPass circ3 =
+    [{ kind := .X, targets := [2] },
+     { kind := .CNOT, controls := [0], targets := [1] }, { kind := .H, targets := [0] },
+     { kind := .CNOT, controls := [0], targets := [1] },
+     { kind := .RZZ, targets := [2, 1], params := [9] }, { kind := .RZ, targets := [0], params := [3] }] := by
+  decide +kernel
+
+example : OpEqvC 3 circ3 (cnotRzRzzPass circ3) := (cnotRzRzzPass_sound 3 circ3 circ3_inv).2
+
+private def pipe3 : List Pass :=
+  [.cnotRzRzz, .fuseCHC, .decomp ["X2HZTranspiler"], .fuseRot, .normalize 0, .clifConv [.H, .S, .Z]]
+
+private def pipe3Out : List NGate :=
+  match runSeq stdEnv stdFuel pipe3 circ3 with
+  | .ok r => r
+  | .error _ => []
+
+private theorem pipe3_runs : runSeq stdEnv stdFuel pipe3 circ3 = .ok pipe3Out := by decide +kernel
+private theorem pipe3_len : pipe3Out.length = 13 := by decide +kernel
+
+example : CInv 3 pipe3Out ∧ OpEqvC 3 circ3 pipe3Out :=
+  runSeq_sound_proved4 3 stdFuel pipe3 circ3 pipe3Out (by decide +kernel) circ3_inv pipe3_runs
 
 end QV.Props.C01Pipeline
